@@ -416,13 +416,28 @@ static int writer_finish_section(struct reftable_writer *w)
 			strbuf_release(&idx[i].last_key);
 		}
 		reftable_free(idx);
-	}
 
-	writer_clear_index(w);
+		if (w->index_len <= threshold || w->index_len + 1 >= idx_len) {
+			/* This is the topmost level (or another level
+			 * would not be smaller); its last block is
+			 * flushed below. */
+			break;
+		}
+
+		/* Another level follows. Flush the last block of this
+		 * level first, so it is written out and indexed too. */
+		err = writer_flush_block(w);
+		if (err < 0)
+			return err;
+	}
 
 	err = writer_flush_block(w);
 	if (err < 0)
 		return err;
+
+	/* Entries for the topmost index level must not leak into the
+	 * index of the next section. */
+	writer_clear_index(w);
 
 	bstats = writer_reftable_block_stats(w, typ);
 	bstats->index_blocks = w->stats.idx_stats.blocks - before_blocks;
